@@ -55,6 +55,7 @@ type Top struct {
 	constStrs  []Term
 	closures   map[string]Val
 	nbound     int
+	hookSeen   map[string]bool // callee names that reached callHooks (to report hooks that match nothing)
 	goCaps     []refComp // reference components handed to the goroutine at the current go statement
 	epochHeaps map[string]Term
 	epochMerge map[int][]epochPart
@@ -1033,7 +1034,7 @@ func (fr *Frame) loopCalls(li *loopInfo, name string) bool {
 				}
 				continue
 			}
-			if fn := cc.StaticCallee(); fn != nil && fn.Name() == name {
+			if fn := cc.StaticCallee(); fn != nil && hookName(fn.Name()) == name {
 				return true
 			}
 		}
